@@ -45,6 +45,8 @@ class Contract:
     e1: bool = True                                # False: run-time contract only (tier B function, bounded stand-in)
     runtime: bool = True                           # checked by the E2 wrappers
     gen: str | None = None                         # name of the E2 input generator
+    fuzz_via: list = field(default_factory=list)   # no run-time contract of its own: an undischarged obligation is searched through these callers' contracts
+    heap: bool = False                             # heap mode: the block dictionaries of region sub-graphs are state ('$heap' in modifies when written)
     card_mono: list = field(default_factory=list)  # obligation clauses/sites that get monotonicity of card under inclusion (strict for proper inclusion)
 
 
